@@ -13,8 +13,10 @@ use crate::oracles::text_index as ti;
 use crate::oracles::text_index::Pi;
 use bio::alphabets::Alphabet;
 use bio::data_structures::bwt::Occ;
+use bio::data_structures::bwt::{Less, BWT};
 use bio::data_structures::suffix_array::{
-    lcp, shortest_unique_substrings, suffix_array, suffix_array_int, SuffixArray,
+    lcp, shortest_unique_substrings, suffix_array, suffix_array_int, RawSuffixArray, SampledSuffixArray,
+    SuffixArray,
 };
 use serde_json::{json, Value};
 
@@ -67,6 +69,10 @@ fn check_text(text: &[u8], cc: &mut CaseCtx) {
         );
         return;
     }
+    // the full array through the `SuffixArray` trait: the accessors must describe the same vector
+    if !check_raw_trait(&sa, cc) {
+        return;
+    }
     if nsent != 1 || n < 2 {
         return;
     }
@@ -114,6 +120,46 @@ fn check_text(text: &[u8], cc: &mut CaseCtx) {
     }
 }
 
+/// `impl SuffixArray for RawSuffixArray`: get(i) = Some(v[i]) inside, None at and beyond the length,
+/// len() = vector length, is_empty() <=> len() == 0.  False after a violation.
+fn check_raw_trait(sa: &RawSuffixArray, cc: &mut CaseCtx) -> bool {
+    let n = sa.as_slice().len();
+    let r = guard(|| {
+        let got: Vec<Option<usize>> = (0..n + 2).map(|i| SuffixArray::get(sa, i)).collect();
+        (got, SuffixArray::len(sa), SuffixArray::is_empty(sa))
+    });
+    match r {
+        Err(msg) => {
+            cc.violation("C03/raw-suffix-array/panic", msg);
+            false
+        }
+        Ok((got, len, empty)) => {
+            if let Some(i) = (0..n).find(|&i| got[i] != Some(sa.as_slice()[i])) {
+                cc.violation(
+                    "C03/raw-suffix-array/get-differs-from-vector",
+                    format!("array {:?}: SuffixArray::get({}) = {:?}", sa, i, got[i]),
+                );
+                return false;
+            }
+            if got[n].is_some() || got[n + 1].is_some() {
+                cc.violation(
+                    "C03/raw-suffix-array/out-of-range-some",
+                    format!("array of length {}: get({}) = {:?}, get({}) = {:?}", n, n, got[n], n + 1, got[n + 1]),
+                );
+                return false;
+            }
+            if len != n || empty != (n == 0) {
+                cc.violation(
+                    "C03/raw-suffix-array/len-or-is_empty",
+                    format!("array of length {}: len() = {}, is_empty() = {}", n, len, empty),
+                );
+                return false;
+            }
+            true
+        }
+    }
+}
+
 // ------------------------------------------------------------------------------------------------
 // kind "sampled": SampledSuffixArray::get against the full array, one (text, pi, s, k) per case
 // ------------------------------------------------------------------------------------------------
@@ -152,15 +198,25 @@ fn check_sampled(text: &[u8], p: &Prepared, s: usize, k: u32, cc: &mut CaseCtx) 
         let occ = Occ::new(&p.bwt, k, &p.alphabet);
         let sampled = p.sa.sample(text, &p.bwt, &p.less, &occ, s);
         let got: Vec<Option<usize>> = (0..=n).map(|i| sampled.get(i)).collect();
-        (got, sampled.len(), sampled.is_empty(), sampled.sampling_rate())
+        // the accessors hand back what was passed to sample() (same object, or at least equal)
+        let same = (std::ptr::eq(sampled.bwt(), &p.bwt) || sampled.bwt() == &p.bwt)
+            && (std::ptr::eq(sampled.less(), &p.less) || sampled.less() == &p.less)
+            && (std::ptr::eq(sampled.occ(), &occ) || sampled.occ() == &occ);
+        (got, sampled.len(), sampled.is_empty(), sampled.sampling_rate(), same)
     });
     match r {
         Err(msg) => {
             cc.outcome(&"panic");
             cc.violation(format!("C03/sampled/{}/panic", p.class), format!("s={} k={}: {}", s, k, msg));
         }
-        Ok((got, len, empty, rate)) => {
+        Ok((got, len, empty, rate, same)) => {
             cc.outcome(&got);
+            if !same {
+                cc.violation(
+                    format!("C03/sampled/{}/accessor-differs", p.class),
+                    format!("text {:?} s={} k={}: bwt()/less()/occ() do not return the components given to sample()", show(text), s, k),
+                );
+            }
             for i in 0..n {
                 if got[i] != Some(p.sa[i]) {
                     cc.violation(
@@ -493,6 +549,125 @@ fn int_unit(tier: Tier, shard: usize, ctx: &mut Ctx) {
     }
 }
 
+// ------------------------------------------------------------------------------------------------
+// unit "accessors": the sampled array with OWNED components (its own monomorphisation), all of its
+// accessors, and the two empty arrays
+// ------------------------------------------------------------------------------------------------
+
+type OwnedSampled = SampledSuffixArray<BWT, Less, Occ>;
+
+/// kind "sampled-owned": `sample()` is given clones of BWT / less / Occ by value; `get` is compared
+/// with the full array at every index 0..=n+1, and every accessor with what went in.
+fn check_sampled_owned(text: &[u8], p: &Prepared, s: usize, k: u32, cc: &mut CaseCtx) {
+    let n = text.len();
+    cc.set_nontrivial(p.nontrivial && s >= 2);
+    let r = guard(|| {
+        let occ = Occ::new(&p.bwt, k, &p.alphabet);
+        let sampled: OwnedSampled = p.sa.sample(text, p.bwt.clone(), p.less.clone(), occ.clone(), s);
+        let got: Vec<Option<usize>> = (0..n + 2).map(|i| sampled.get(i)).collect();
+        let diff: Vec<&'static str> = [
+            ("bwt", sampled.bwt() != &p.bwt),
+            ("less", sampled.less() != &p.less),
+            ("occ", sampled.occ() != &occ),
+            ("sampling_rate", sampled.sampling_rate() != s),
+        ]
+        .iter()
+        .filter(|x| x.1)
+        .map(|x| x.0)
+        .collect();
+        (got, sampled.len(), sampled.is_empty(), diff)
+    });
+    match r {
+        Err(msg) => {
+            cc.outcome(&"panic");
+            cc.violation(format!("C03/sampled-owned/{}/panic", p.class), format!("s={} k={}: {}", s, k, msg));
+        }
+        Ok((got, len, empty, diff)) => {
+            cc.outcome(&got);
+            if let Some(i) = (0..n).find(|&i| got[i] != Some(p.sa[i])) {
+                cc.violation(
+                    format!("C03/sampled-owned/{}/wrong-position", p.class),
+                    format!("text {:?} s={} k={}: get({}) = {:?}, full array {:?}", show(text), s, k, i, got[i], p.sa),
+                );
+                return;
+            }
+            if got[n].is_some() || got[n + 1].is_some() {
+                cc.violation(
+                    format!("C03/sampled-owned/{}/out-of-range-some", p.class),
+                    format!("text {:?} s={} k={}: get({}) = {:?}, get({}) = {:?}", show(text), s, k, n, got[n], n + 1, got[n + 1]),
+                );
+            }
+            if len != n || empty {
+                cc.violation(
+                    format!("C03/sampled-owned/{}/len-or-is_empty", p.class),
+                    format!("text {:?} s={} k={}: len() = {} (n = {}), is_empty() = {}", show(text), s, k, len, n, empty),
+                );
+            }
+            if !diff.is_empty() {
+                cc.violation(
+                    format!("C03/sampled-owned/{}/accessor-differs", p.class),
+                    format!("text {:?} s={} k={}: {:?} differ(s) from what was passed to sample()", show(text), s, k, diff),
+                );
+            }
+        }
+    }
+}
+
+/// kind "empty-arrays": a suffix array without rows (empty vector; `Default` sampled array) is
+/// empty, has length 0 and answers None at every index.
+fn check_empty_arrays(cc: &mut CaseCtx) {
+    let raw: RawSuffixArray = Vec::new();
+    check_raw_trait(&raw, cc);
+    let r = guard(|| {
+        let d: OwnedSampled = Default::default();
+        (d.len(), d.is_empty(), d.get(0), d.get(1), d.bwt().len())
+    });
+    match r {
+        Err(msg) => cc.violation("C03/sampled-default/panic", msg),
+        Ok((len, empty, g0, g1, bwt_len)) => {
+            cc.outcome(&(len, empty, g0, g1));
+            if bwt_len == 0 && (len != 0 || !empty) {
+                cc.violation(
+                    "C03/sampled-default/len-or-is_empty",
+                    format!("array over an empty BWT: len() = {}, is_empty() = {}", len, empty),
+                );
+            }
+            if empty != (len == 0) {
+                cc.violation("C03/sampled-default/len-or-is_empty", format!("len() = {}, is_empty() = {}", len, empty));
+            }
+            if len == 0 && (g0.is_some() || g1.is_some()) {
+                cc.violation("C03/sampled-default/out-of-range-some", format!("get(0) = {:?}, get(1) = {:?}", g0, g1));
+            }
+        }
+    }
+}
+
+fn accessors_unit(tier: Tier, ctx: &mut Ctx) {
+    ctx.case(|| json!({"kind": "empty-arrays"}), check_empty_arrays);
+    let maxlen = tier.pick(6, 8);
+    ti::for_each_body(3, 0, maxlen, 0, 1, |_, body| {
+        if ctx.res.capped {
+            return;
+        }
+        let text = ti::text_of_body(body, &ti::ASCII);
+        let n = text.len();
+        for pi in [Pi::Desc, Pi::Asc] {
+            if pi == Pi::Asc && !body.contains(&0) {
+                continue;
+            }
+            let p = prepare(&text, pi);
+            for s in 1..=n + 1 {
+                for k in [1u32, 3] {
+                    ctx.case(
+                        || json!({"kind": "sampled-owned", "text": show(&text), "pi": pi.name(), "s": s, "k": k}),
+                        |cc| check_sampled_owned(&text, &p, s, k, cc),
+                    );
+                }
+            }
+        }
+    });
+}
+
 impl Prop for C03Prop {
     fn id(&self) -> &'static str {
         "C03"
@@ -501,7 +676,7 @@ impl Prop for C03Prop {
         "exploration"
     }
     fn rule(&self) -> &'static str {
-        "Complete sweep of texts body.$ (body over {$,a,b} and {$,a,b,c}, every length up to the bound, ASCII and byte-extreme embedding), plus repetitive families (cuts of u^r, Fibonacci, Thue-Morse, >255 LMS substrings) in six sentinel layouts (w$, w$w$, w$rev(w)$, w$w$w$, w cut in the middle, w$$w$), plus texts whose alphabet size + sentinel count straddles 255, plus every dense integer text over {1..3}/{1..4} for u8/u16/usize. Case kinds: sa = one text (suffix_array checked as 'permutation, final sentinel first, strictly sorted under the comparison whose sentinel order is read off the array itself'; lcp/decompress/get and shortest_unique_substrings when the text has one sentinel and n>=2); sampled = one (text, oracle SA under sentinel order pi, sampling rate s, Occ rate k) with get(i) compared for every i in 0..=n; int = one (element type, integer text). Non-trivial: sa/sampled: the text has a factor of length 2 occurring twice or at least two sentinels (sampled additionally s>=2 and n>=3); int: a length-2 factor occurs twice. Extra counters report how many long texts force SA-IS recursion (depth>=1, >=2) by an independent LMS-substring computation."
+        "Complete sweep of texts body.$ (body over {$,a,b} and {$,a,b,c}, every length up to the bound, ASCII and byte-extreme embedding), plus repetitive families (cuts of u^r, Fibonacci, Thue-Morse, >255 LMS substrings) in six sentinel layouts (w$, w$w$, w$rev(w)$, w$w$w$, w cut in the middle, w$$w$), plus texts whose alphabet size + sentinel count straddles 255, plus every dense integer text over {1..3}/{1..4} for u8/u16/usize. Case kinds: sa = one text (suffix_array checked as 'permutation, final sentinel first, strictly sorted under the comparison whose sentinel order is read off the array itself'; lcp/decompress/get and shortest_unique_substrings when the text has one sentinel and n>=2); sampled = one (text, oracle SA under sentinel order pi, sampling rate s, Occ rate k) with get(i) compared for every i in 0..=n; int = one (element type, integer text). Non-trivial: sa/sampled: the text has a factor of length 2 occurring twice or at least two sentinels (sampled additionally s>=2 and n>=3); int: a length-2 factor occurs twice. Extra counters report how many long texts force SA-IS recursion (depth>=1, >=2) by an independent LMS-substring computation. Entry points: every sa case also reads the returned vector back through the SuffixArray trait (get at 0..=n+1, len, is_empty); every sampled case also compares bwt()/less()/occ()/sampling_rate()/len()/is_empty() with what was passed to sample(); the unit 'accessors' repeats the sampled case with components passed BY VALUE (sampled-owned: every text over {$,a,b} up to a small length, every s in 1..=n+1, k in {1,3}, get at 0..=n+1) and checks the two empty arrays (empty vector, Default sampled array: is_empty, len 0, get = None)."
     }
     fn assumptions(&self) -> Vec<&'static str> {
         vec![
@@ -510,6 +685,7 @@ impl Prop for C03Prop {
             "texts satisfy the precondition (last symbol is the smallest symbol); integer texts are dense and end in a unique 0",
             "sampled arrays are built from the oracle's full array (both sentinel orders), BWT and less computed by definition and the subject's Occ, so only sample()/get()/Occ can cause a discrepancy",
             "LCP/SUS are only demanded for single-sentinel texts of length >= 2",
+            "accessors: get(i) is None for i >= len(), is_empty() <=> len() == 0, bwt()/less()/occ()/sampling_rate() return values equal to the arguments of sample()",
         ]
     }
     fn bounds(&self, tier: Tier) -> Value {
@@ -522,6 +698,7 @@ impl Prop for C03Prop {
             "families": {"texts": ti::family_bodies(tier, b.sa3).len(), "max_len": ti::family_bodies(tier, b.sa3).iter().map(|b| b.len() + 1).max(),
                          "sampled": tier.pick("n<=140: s in {1,2,3,5,8,32,33,n,n+1} x k in {1,3,64,65,2n}, sentinel order desc", "n<=100: s in {1,2,3,4,5,7,8,16,31,32,33,64,n/2,n-1,n,n+1} x k in {1,2,3,7,64,65,128,n,2n}; 100<n<=300: s in {1,2,3,5,8,32,33,n,n+1} x k in {1,3,64,65,2n}; both sentinel orders")},
             "large_texts": "fixed pseudo-random texts (LCG) of 150k-400k (thorough: up to 1M) symbols over 16/64/255-symbol alphabets: more than 2^16 distinct LMS substrings; suffix array checked for permutation and order only", "wide_alphabet": {"texts": ti::wide_alphabet_texts(tier).len(), "alphabet_plus_sentinels": "253..=258 and 256+{1,2,3,5}", "sampled": "s in {1,2,3,16,n} x k in {1,3,65,n}"},
+            "accessors": {"sampled_owned_body_len {$,a,b}": format!("0..={}", tier.pick(6, 8)), "s": "1..=n+1", "k": "1,3", "sentinel_orders": "desc, and asc for multi-sentinel texts", "empty_arrays": "Vec::new(), SampledSuffixArray::default()"},
             "integer": {"types": "u8,u16,usize", "dense {1,2,3}^len.0": format!("1..={}", b.int3), "dense {1,2,3,4}^len.0": format!("1..={}", b.int4),
                         "families": "family words over {1,2}, value ranges 0..=254/255/256/300 as two stride permutations"}
         })
@@ -531,6 +708,7 @@ impl Prop for C03Prop {
         v.extend((0..FAMILY_SHARDS).map(|i| format!("families-{}", i)));
         v.extend((0..WIDE_SHARDS).map(|i| format!("wide-{}", i)));
         v.extend((0..INT_SHARDS).map(|i| format!("int-{}", i)));
+        v.push("accessors".into());
         v
     }
     fn run_unit(&self, tier: Tier, unit: usize, ctx: &mut Ctx) {
@@ -547,13 +725,18 @@ impl Prop for C03Prop {
             return wide_unit(tier, u, ctx);
         }
         u -= WIDE_SHARDS;
-        int_unit(tier, u, ctx);
+        if u < INT_SHARDS {
+            return int_unit(tier, u, ctx);
+        }
+        accessors_unit(tier, ctx);
     }
     fn death_key(&self, case: &Value, how: &str) -> String {
         // a hang / abort of the subject on one case: name the entry point
         let entry = match case["kind"].as_str().unwrap_or("") {
             "sa" | "sa-large" => "suffix_array",
             "sampled" => "sampled",
+            "sampled-owned" => "sampled-owned",
+            "empty-arrays" => "empty-arrays",
             "int" => "suffix_array_int",
             _ => "unknown",
         };
@@ -584,6 +767,18 @@ impl Prop for C03Prop {
                 }
                 let p = prepare(&text, pi);
                 ctx.case(|| case.clone(), |cc| check_sampled(&text, &p, s, k, cc));
+            }
+            "empty-arrays" => ctx.case(|| case.clone(), check_empty_arrays),
+            "sampled-owned" => {
+                let text = unshow(case["text"].as_str().unwrap_or(""));
+                let pi = Pi::parse(case["pi"].as_str().unwrap_or("desc"));
+                let s = case["s"].as_u64().unwrap_or(1) as usize;
+                let k = case["k"].as_u64().unwrap_or(1) as u32;
+                if !ti::is_valid_text(&text) || s == 0 || k == 0 {
+                    return;
+                }
+                let p = prepare(&text, pi);
+                ctx.case(|| case.clone(), |cc| check_sampled_owned(&text, &p, s, k, cc));
             }
             "int" => {
                 let text: Vec<u64> = serde_json::from_value(case["text"].clone()).unwrap_or_default();
